@@ -21,7 +21,10 @@ base32 entries as for `respfor` and `craft:<framed request hex>=<craftResponse r
 request that is not in the table fails) → `none` (nothing is written) / `sent <wire hex>` / `panic …`;
 `recvloop|perIter|addr:hex,…|steps` (the receive loop on the queued datagrams under the schedule
 `steps` = `r` / `h<i>` separated by blanks, handlers echo what they read) →
-`sent addr:hex,… seen hex,… left <queued>/<pending>` (sent sorted by address, seen sorted). -/
+`sent addr:hex,… seen hex,… left <queued>/<pending>` (sent sorted by address, seen sorted);
+`anyinto|src|value|expected|prior|decoded` (`UnmarshalAnypbTo` into a destination that holds the fields
+`prior`; fields are `number:hex` joined by `,`; `decoded` = the fields `value` carries, or `FAIL`) →
+`ok nil` / `ok <fields>` / `err …`. -/
 namespace CJ.Drv.Codec
 open CJ.Codec CJ.Drv
 
@@ -182,6 +185,23 @@ def handle (args : List String) : Option String :=
   | ["obfs", "xor-rev", ct] => do some (showOutcome toHex (xorReveal (← parseHex ct)))
   | ["obfs", "nil-obf", pt] => do some (showOutcome toHex (nilObfuscate (← parseHex pt)))
   | ["obfs", "nil-rev", ct] => do some (showOutcome toHex (nilReveal (← parseHex ct)))
+  | ["anyinto", src, value, expected, prior, decoded] => do
+    let parseFields (t : String) : Option Fields := (fields t ",").mapM fun f => match f.splitOn ":" with
+      | [n, x] => do some (← n.toNat?, ← parseHex x)
+      | _ => none
+    let srcUrl ← parseUrl src
+    let exp ← parseUrl expected
+    let v ← parseHex value
+    let pr ← parseFields prior
+    let dec : Option Fields ← if decoded == "FAIL" then some none else (parseFields decoded).map some
+    let showFields (m : Fields) : String :=
+      if m.isEmpty then "-" else ",".intercalate (m.map fun (n, x) => s!"{n}:{toHex x}")
+    some (match unmarshalAnyInto false (fun _ b => if b == v then dec else none) exp (srcUrl.map fun u => ⟨u, v⟩) pr with
+      | .ok none => "ok nil"
+      | .ok (some m) => "ok " ++ showFields m
+      | .err e => "err " ++ showErr e
+      | .panic s => "panic " ++ s
+      | .hang => "hang")
   | ["any", src, value, expected, canUnmarshal] => do
     -- src: NIL = no Any at all, otherwise its type URL; expected: NIL = nil destination
     let srcUrl ← parseUrl src
